@@ -20,12 +20,14 @@ __CPROVER_ensures (V_SIZ (x) != 0 ==> __CPROVER_return_value == (V_BITS (x) + V_
 # ------------------------------------------------------------------ mpn_get_str for power-of-two bases: EVERY digit is the right k-bit field of the operand
 # digit j (0 = most significant) of a D-digit output is bits [(D-1-j)k, (D-j)k) of {up,un}; D = ceil(bitlength / k).  Unbounded in un, one unit per base.
 GS_CONTRACT = '''#define V_NBITS(p,n) ((unsigned long) (n) * 64 - (unsigned long) __builtin_clzl ((p)[(n) - 1]))
-#define V_ND(p,n,k) ((long) ((V_NBITS (p, n) + (k) - 1) / (k)))
+/* the digit count D is the ghost gh, pinned by  (D-1)k < bitlength <= Dk  (no division by k in the specification: k = 3,5,6,7 made the divider circuits too slow) */
+#define V_ND(p,n,k) gh
+#define V_DOK(p,n,k) (1 <= gh && gh <= 64 * V_NMAX && (unsigned long) gh * (k) >= V_NBITS (p, n) && (unsigned long) (gh - 1) * (k) < V_NBITS (p, n))
 /* k-bit field of {p,n} whose lowest bit is bit o (zero beyond limb n-1) */
 #define V_FIELD(p,n,o,k) ((((p)[(o) / 64] >> ((o) % 64)) | ((((o) % 64) + (k) > 64 && (o) / 64 + 1 < (n)) ? (p)[(o) / 64 + 1] << (64 - ((o) % 64)) : 0)) & ((1UL << (k)) - 1))
 size_t __gmpn_get_str (unsigned char *str, int base, mp_ptr up, mp_size_t un)
 __CPROVER_requires (base == V_BASE && 0 <= un && un <= V_NMAX && (un == 0 || (V_R_OK (up, un) && up[un - 1] != 0)))
-__CPROVER_requires (__CPROVER_w_ok (str, (64 * un + V_KC - 1) / V_KC + 1) && !__CPROVER_same_object (str, up) && 0 <= gj && gj <= 64 * V_NMAX)
+__CPROVER_requires (__CPROVER_w_ok (str, (64 * un + V_KC - 1) / V_KC + 1) && !__CPROVER_same_object (str, up) && 0 <= gj && gj <= 64 * V_NMAX && (un == 0 || V_DOK (up, un, V_KC)))
 __CPROVER_assigns (__CPROVER_object_upto (str, (64 * un + V_KC - 1) / V_KC + 1))
 __CPROVER_ensures (un == 0 ==> (__CPROVER_return_value == 1 && str[0] == 0))
 __CPROVER_ensures (un != 0 ==> __CPROVER_return_value == (size_t) V_ND (up, un, V_KC))
@@ -35,15 +37,15 @@ def _getstr(base):
     W = '(s - str)'
     common = ('(bits_per_digit == V_KC && base == V_BASE && 1 <= un && un <= V_NMAX && s >= str && __CPROVER_same_object (s, str) && 0 <= i && i <= un - 1 && n1 == up[i] '
               '&& V_D == V_ND (up, un, V_KC) && 0 <= WW && WW <= V_D && ((0 <= gj && gj < WW) ==> str[gj] == V_FIELD (up, un, (unsigned long) (V_D - 1 - gj) * V_KC, V_KC))').replace('WW', W)
-    inv0 = common + ' && 1 <= bit_pos && bit_pos <= 63 + V_KC && (long) i * 64 + bit_pos == (V_D - WW) * V_KC)'.replace('WW', W)
-    inv1 = common + ' && -V_KC <= bit_pos && bit_pos <= 63 && (long) i * 64 + bit_pos == (V_D - WW - 1) * V_KC)'.replace('WW', W)
+    inv0 = common + ' && 1 <= bit_pos && bit_pos <= 63 + V_KC && (i == un - 1 || bit_pos <= 64) && (long) i * 64 + bit_pos == (V_D - WW) * V_KC)'.replace('WW', W)
+    inv1 = common + ' && -V_KC <= bit_pos && bit_pos <= 63 && (i == un - 1 || bit_pos + V_KC <= 64) && (long) i * 64 + bit_pos == (V_D - WW - 1) * V_KC)'.replace('WW', W)
     hv = '{ long V_w = nondet_long (); __CPROVER_assume (0 <= V_w && V_w <= V_D); s = str + V_w; }'
     sl = [('str', '(64 * un + V_KC - 1) / V_KC + 1')]
     return dict(
         name='mpn_get_str_b%d' % base, props=['C06', 'C04', 'C15'], source='mpn/generic/get_str.c', extra_sources=['mpn/mp_bases.c'], contracts=['mpn.h'],
         contract_text=('#define V_BASE %d\n#define V_KC %d\n' % (base, base.bit_length() - 1)) + GS_CONTRACT, enforce=['__gmpn_get_str'],
         functions={'__gmpn_get_str': dict(
-            inserts=[(r'i = un - 1;\s*for \(;;\)', r'long V_D = bits / bits_per_digit; \g<0>')],
+            inserts=[(r'i = un - 1;\s*for \(;;\)', r'long V_D = gh; \g<0>')],
             loops={0: dict(scalars=['i', 'bit_pos', 'n1', 'n0'], havoc_targets=['s'], local_to_body=['V_w'], havoc=hv, slices=sl, inv=inv0, dec='((long) i * 64 + bit_pos)'),
                    1: dict(scalars=['bit_pos'], havoc_targets=['s'], havoc=hv, slices=sl, inv=inv1, dec='(bit_pos + V_KC)'),
                    2: 'unreachable', 3: 'unreachable', 4: 'unreachable', 5: 'unreachable'})},
@@ -52,7 +54,7 @@ def _getstr(base):
   mp_size_t un = nondet_long (); __CPROVER_assume (0 <= un && un <= V_NMAX);
   mp_limb_t *up = malloc (un * 8); unsigned char *str = malloc ((64 * un + V_KC - 1) / V_KC + 1);
   __CPROVER_assume (up != (void *) 0 && str != (void *) 0);
-  gj = nondet_long ();
+  gj = nondet_long (); gh = nondet_long ();
   __gmpn_get_str (str, V_BASE, up, un);
 }''' % base, timeout=1200,
         selftest=[('__gmpn_get_str', r'n0 = \(n1 << -bit_pos\)', 'n0 = (n1 << (-bit_pos - 1))'), ('__gmpn_get_str', r'bits \+= bits_per_digit - cnt;', 'bits += bits_per_digit;')] if base in (8, 16) else [])
